@@ -18,7 +18,7 @@ for name in sorted(d for d in os.listdir(f"{V}/seeded") if os.path.isdir(f"{V}/s
             own_hit += 1
         if any(r["exit"] == 1 and r["violation_lines"] for r in res.values()):
             any_hit += 1
-    note = meta.get("note", "")
+    note = meta.get("note", "") or (("outside every claim: " + meta["outside_every_claim"]) if meta.get("outside_every_claim") else "")
     needs = meta.get("needs_to_manifest", "").replace("|", "&#124;")
     rows.append("| " + name + " | " + needs + " | " + det + ((" — " + note) if note else "") + " |")
 text = f"""Seeded changes were written by fresh sub-agents that saw only the text of one property and a
@@ -34,8 +34,12 @@ against and {any_hit} by at least one check.
 |---|---|---|
 """ + "\n".join(rows) + """
 
-Changes that no check catches are floating-point-only (identical over the reals: C14-B, C08-E) —
-outside every claim of this family — or are listed as missed above. Checks were strengthened
+Changes that no check catches are floating-point-only (identical over the reals: C14-B, C08-E) or
+need the caller to modify in place a list the library handed out (C02-N, C04-N: not stated by any
+property, and the pinned tree hands out its own label list through Term.levels) - outside every
+claim of this family. Five waves were written: (A-H) free choice, (I/J) cooperating sites,
+multi-step sequences and unusual inputs, (K/L) size and shape thresholds, (M/N) refusals, metadata,
+aliasing and determinism. Checks were strengthened
 after misses: C02 (keyword-value aliasing of calls), C04 (declared level orders through C()),
 C06 (unordered Categorical flavour; operator spellings sharing components), C09 (duplicate index
 labels), C11 (keyword position, None bindings, Python-builtin names), C12 (bool arithmetic,
